@@ -141,7 +141,8 @@ def saM (a b c : α) : α := (sqr a * (sqr b - sqr c)) / (sqr b * (sqr a - sqr c
 def ellipticPart (einc kinc : α → α → α) (a b c : α) : α :=
   if c < a then
     let phi := saPhi a c
-    let m := saM a b c
+    -- as repaired: `m = min(m, 1.0)` guards the elliptic integrals against rounding above 1
+    let m := Scalar.min (saM a b c) (lit 1)
     let e := einc phi m * sqr (Scalar.sin phi)
     let e := e + kinc phi m * sqr (Scalar.cos phi)
     e / Scalar.sin phi
